@@ -160,9 +160,14 @@ def part_b(args):
 STEPS = ["edit", "bump", "remove", "rename", "recluster", "plain", "restore"]
 
 
-def base_prog(callee_kind, cluster):
+def base_prog(callee_kind, cluster, argpass=False):
     R = mkfunc("R", kind="explicit", version="1", calls=[call("D")], rich=False, cluster=cluster)
     D = mkfunc("D", kind=callee_kind, version="d1" if callee_kind == "explicit" else None, rich=False, cluster=cluster)
+    if argpass:
+        # the evolving function is handed to a middle function as an ARGUMENT: stored argument lists name its version
+        R["calls"] = [{"target": "M", "form": "passfn", "fn": "D", "arg": 1}]
+        M = mkfunc("M", kind="explicit", version="m1", calls=[call("D", "arg")], rich=False, cluster=cluster)
+        return {"funcs": [R, M, D], "vars": {}}
     return {"funcs": [R, D], "vars": {}}
 
 
@@ -172,7 +177,8 @@ def apply_step(P, step, base):
     Q = copy.deepcopy(P)
     fm = {f["name"]: f for f in Q["funcs"]}
     R = fm["R"]
-    tgt = R["calls"][0]["target"]
+    argpass = "fn" in R["calls"][0]
+    tgt = R["calls"][0]["fn"] if argpass else R["calls"][0]["target"]
     D = fm.get(tgt)
     if step == "restore":
         return copy.deepcopy(base)
@@ -190,7 +196,10 @@ def apply_step(P, step, base):
         Q["funcs"] = [f for f in Q["funcs"] if f["name"] != tgt]
     elif step == "rename":
         D["name"] = tgt + "n"
-        R["calls"][0]["target"] = tgt + "n"
+        if argpass:
+            R["calls"][0]["fn"] = tgt + "n"
+        else:
+            R["calls"][0]["target"] = tgt + "n"
     elif step == "recluster":
         if D["kind"] == "plain":
             return None
@@ -209,10 +218,16 @@ def _c_child(root, store, cluster, first):
     import twosigma.memento as m
 
     audit.install()
-    farm.set_env(store, ("vfc", "other"))
+    farm.set_env(store, ("vfc", "other", "vf"))
     sys.path.insert(0, root)
     a = importlib.import_module("vfp.a")
     return _observe(a, m, cluster)
+
+
+def _listing(m, cl):
+    """(qualified name, number of mementos reachable through the listed reference) per listed function"""
+    storage = m.Environment.get().get_cluster(cluster_name=cl).storage
+    return sorted((ref.qualified_name, len(storage.list_mementos(ref))) for ref in m.list_memoized_functions(cl))
 
 
 def _observe(a, m, cluster):
@@ -247,6 +262,10 @@ def _observe(a, m, cluster):
                     obs["current"] = sorted(cur)
         except Exception as e:
             obs[name] = "EXC:%s:%s" % (type(e).__name__, str(e)[:100])
+    try:
+        obs["listed"] = [list(x) for x in _listing(m, cluster) + _listing(m, "other")]
+    except Exception as e:
+        obs["listed"] = "EXC:%s:%s" % (type(e).__name__, str(e)[:100])
     return obs
 
 
@@ -258,7 +277,7 @@ def _c_inproc_child(top, store, cluster, progs):
     import twosigma.memento as m
 
     audit.install()
-    farm.set_env(store, ("vfc", "other"))
+    farm.set_env(store, ("vfc", "other", "vf"))
     root = os.path.join(top, "ip")
     progen.write_pkg(progs[0], root)
     sys.path.insert(0, root)
@@ -277,20 +296,21 @@ def _c_inproc_child(top, store, cluster, progs):
 
 
 def part_c(args):
-    if len(args) == 4:
+    callee_kind, cluster, steps, mode, argpass = args
+    if mode == "inproc":
         return part_c_inproc(args)
-    callee_kind, cluster, steps = args
     top = scratch_dir("c12c")
     out = {"evaluations": 1, "states": 1, "transitions": len(steps), "traces": 1, "violations": [], "outcomes": []}
     try:
-        base = base_prog(callee_kind, cluster)
+        base = base_prog(callee_kind, cluster, argpass)
         P = base
         store = os.path.join(top, "store")
         progen.write_pkg(P, os.path.join(top, "e0"))
         o0 = farm.fork_call(_c_child, os.path.join(top, "e0"), store, cluster, True)
         want = o0["value"]
-        if isinstance(want, str) and want.startswith("EXC") or o0["bodies"] != ["R", "D"]:
+        if isinstance(want, str) and want.startswith("EXC") or o0["bodies"] != (["R", "M", "D"] if argpass else ["R", "D"]):
             raise HarnessError("initial run of the caller/callee pair is wrong: %s" % (o0,))
+        prev = o0
         for k, st in enumerate(steps):
             P = apply_step(P, st, base)
             if P is None:
@@ -299,31 +319,14 @@ def part_c(args):
             root = os.path.join(top, "e%d" % (k + 1))
             progen.write_pkg(P, root)
             o = farm.fork_call(_c_child, root, store, cluster, False)
-            bad = None
-            if o["value"] != want:
-                bad = ("not-served", "caller() gave %r, stored result is %r" % (o["value"], want))
-            elif o["bodies"]:
-                bad = ("recomputed", "caller() ran bodies %s although its own version is current" % o["bodies"])
-            else:
-                for name in ("memento", "list_mementos", "list_functions", "list_functions_other"):
-                    if o[name].startswith("EXC"):
-                        bad = ("%s-raised" % name, "%s raised %s" % (name, o[name][4:]))
-                        break
-                if bad is None and o["memento"] == "none":
-                    bad = ("memento-none", "memento() of the current caller returned nothing")
-                if bad is None:
-                    # a callee that merely moved to another cluster still exists with that version
-                    cur = {q.split("::")[-1] for q in o["current"]}
-                    for qn, ext in o["refs"]:
-                        if qn.split("::")[-1] not in cur and not ext:
-                            bad = ("vanished-not-external", "reference %s is not a current function yet not reported as external" % qn)
-                            break
+            bad = judge_c(o, want, prev, o0, "recluster" in steps[:k + 1])
+            prev = o
             if bad:
-                sig = "evolve|%s|callee:%s|step:%s|%s" % ("named" if cluster else "default", callee_kind, st, bad[0])
-                out["violations"].append((sig, bad[1] + "\ncallee kind=%s cluster=%s history=%s" % (callee_kind, cluster, list(steps[:k + 1])),
-                                          {"part": "C", "callee": callee_kind, "cluster": cluster, "steps": list(steps[:k + 1])}))
+                sig = "evolve|%s|callee:%s%s|step:%s|%s" % (_cl(cluster), callee_kind, "+as-argument" if argpass else "", st, bad[0])
+                out["violations"].append((sig, bad[1] + "\ncallee kind=%s cluster=%s passed-as-argument=%s history=%s" % (callee_kind, cluster, argpass, list(steps[:k + 1])),
+                                          {"part": "C", "callee": callee_kind, "cluster": cluster, "steps": list(steps[:k + 1]), "argpass": argpass}))
                 break
-        out["outcomes"].append("C:%s:%s:%s" % (callee_kind, cluster, steps))
+        out["outcomes"].append("C:%s:%s:%s:%s" % (callee_kind, cluster, steps, argpass))
     except farm.ChildFailed as e:
         raise HarnessError("part C child failed %s: %s" % (args, e))
     finally:
@@ -331,7 +334,11 @@ def part_c(args):
     return out
 
 
-def judge_c(o, want):
+def _cl(cluster):
+    return "default" if not cluster else ("named" if cluster == "vfc" else "named-prefix-of-module")
+
+
+def judge_c(o, want, prev, first, moved=False):
     if o["value"] != want:
         return ("not-served", "caller() gave %r, stored result is %r" % (o["value"], want))
     if o["bodies"]:
@@ -345,15 +352,28 @@ def judge_c(o, want):
     for qn, ext in o["refs"]:
         if qn.split("::")[-1] not in cur and not ext:
             return ("vanished-not-external", "reference %s is not a current function yet not reported as external" % qn)
+    # the caller's stored record has not been rewritten: it names the same functions as at the start
+    # (a callee that moved to another cluster resolves to the live function: compared without the cluster part)
+    if {q.split("::")[-1] for q, _ in o["refs"]} != {q.split("::")[-1] for q, _ in first["refs"]}:
+        return ("reference-names-changed", "the caller's memento names %s, when stored it named %s" % (sorted({q for q, _ in o["refs"]}), sorted({q for q, _ in first["refs"]})))
+    # nothing was forgotten: whatever was listed before is still listed under the same name with at least as many entries
+    if isinstance(o["listed"], str):
+        return ("listing-raised", "listing the functions and their mementos raised %s" % o["listed"][4:])
+    # (not after a function moved to another cluster: a stored name then resolves to the live function in its new cluster)
+    if isinstance(prev["listed"], list) and not moved:
+        now = {q: n for q, n in o["listed"]}
+        for q, n in prev["listed"]:
+            if now.get(q, -1) < n:
+                return ("listed-entries-lost", "%s had %d listed memento(s) before this step, now %s; listed now: %s" % (q, n, now.get(q, "is not listed"), o["listed"]))
     return None
 
 
 def part_c_inproc(args):
-    callee_kind, cluster, steps, _ = args
+    callee_kind, cluster, steps, _, argpass = args
     top = scratch_dir("c12ci")
     out = {"evaluations": 1, "states": 1, "transitions": len(steps), "traces": 1, "violations": [], "outcomes": []}
     try:
-        base = base_prog(callee_kind, cluster)
+        base = base_prog(callee_kind, cluster, argpass)
         progs = [base]
         for st in steps:
             nxt = apply_step(progs[-1], st, base)
@@ -363,16 +383,16 @@ def part_c_inproc(args):
             progs.append(nxt)
         obs = farm.fork_call(_c_inproc_child, top, os.path.join(top, "store"), cluster, progs)
         want = obs[0]["value"]
-        if obs[0]["bodies"] != ["R", "D"]:
+        if obs[0]["bodies"] != (["R", "M", "D"] if argpass else ["R", "D"]):
             raise HarnessError("initial in-process run is wrong: %s" % (obs[0],))
         for k in range(1, len(obs)):
-            bad = judge_c(obs[k], want)
+            bad = judge_c(obs[k], want, obs[k - 1], obs[0], "recluster" in steps[:k])
             if bad:
-                sig = "evolve-inproc|%s|callee:%s|step:%s|%s" % ("named" if cluster else "default", callee_kind, steps[k - 1], bad[0])
-                out["violations"].append((sig, bad[1] + "\ncallee kind=%s cluster=%s in-process history=%s" % (callee_kind, cluster, list(steps[:k])),
-                                          {"part": "C", "callee": callee_kind, "cluster": cluster, "steps": list(steps[:k]), "inproc": True}))
+                sig = "evolve-inproc|%s|callee:%s%s|step:%s|%s" % (_cl(cluster), callee_kind, "+as-argument" if argpass else "", steps[k - 1], bad[0])
+                out["violations"].append((sig, bad[1] + "\ncallee kind=%s cluster=%s passed-as-argument=%s in-process history=%s" % (callee_kind, cluster, argpass, list(steps[:k])),
+                                          {"part": "C", "callee": callee_kind, "cluster": cluster, "steps": list(steps[:k]), "inproc": True, "argpass": argpass}))
                 break
-        out["outcomes"].append("Ci:%s:%s:%s" % (callee_kind, cluster, steps))
+        out["outcomes"].append("Ci:%s:%s:%s:%s" % (callee_kind, cluster, steps, argpass))
     except farm.ChildFailed as e:
         raise HarnessError("part C in-process child failed %s: %s" % (args, e))
     finally:
@@ -385,7 +405,7 @@ def run(ctx):
     ctx.rule = ("A: all version strings over %s up to length %d x clusters {none, c, c.d, c:d} x modules {m, p.m} x functions "
                 "{f, C.f}; B: versions of length <= %d (plus all length-3 strings containing ':' or '#' in thorough) as real "
                 "explicit versions in default and named clusters on memory and filesystem backends; C: all step sequences of "
-                "length <= 2 over %s for callee kinds {memento, explicit} x {default, named} cluster, cross-process. "
+                "length <= 2 over %s for callee kinds {memento, explicit} x {default, named, named with a name that is a prefix of the module name} cluster x {callee called, callee handed to a middle function as an argument}, cross-process and in-process; listings may only grow. "
                 "distinct = version strings / (version, cluster, backend) / evolution histories."
                 % (SIGMA, 4 if thorough else 3, 2, STEPS))
     ctx.assumptions += ["cluster names do not contain '::'", "module and function names are dotted Python identifiers"]
@@ -400,11 +420,14 @@ def run(ctx):
     ctx.merge(pmap(part_b, [(c, be) for c in bch for be in ("fs", "mem")], chunksize=1))
     tasks = []
     for kind in ("memento", "explicit"):
-        for cluster in (None, "vfc"):
-            for n in (1, 2):
-                for steps in itertools.product(STEPS, repeat=n):
-                    tasks.append((kind, cluster, steps))
-                    tasks.append((kind, cluster, steps, "inproc"))
+        for cluster in (None, "vfc", "vf"):  # "vf" is a prefix of the module name vfp.a
+            for argpass in (False, True):
+                for n in (1, 2):
+                    if n == 2 and not thorough and (cluster == "vf" or argpass):
+                        continue
+                    for steps in itertools.product(STEPS, repeat=n):
+                        tasks.append((kind, cluster, steps, "xproc", argpass))
+                        tasks.append((kind, cluster, steps, "inproc", argpass))
     ctx.merge(pmap(part_c, tasks, chunksize=2))
     ctx.extra["parse_strings"] = len(va) * 16
     ctx.extra["store_versions"] = len(vb)
@@ -423,7 +446,7 @@ def replay(ctx, art):
     elif a["part"] == "B":
         r = part_b(([a["version"]], a["backend"]))
     else:
-        r = part_c((a["callee"], a["cluster"], tuple(a["steps"])) + (("inproc",) if a.get("inproc") else ()))
+        r = part_c((a["callee"], a["cluster"], tuple(a["steps"]), "inproc" if a.get("inproc") else "xproc", bool(a.get("argpass"))))
     for v in r["violations"]:
         print(v[0], "\n", v[1])
     print("REPLAY property=C12 result=%s" % bool(r["violations"]))
